@@ -43,7 +43,7 @@ pub fn facts() -> &'static Facts {
         let mut all = Vec::new();
         let mut undecodable = Vec::new();
         let mut sources = Vec::new();
-        let mut names: Vec<_> = std::fs::read_dir("/repo/db").expect("db dir").filter_map(|e| e.ok()).map(|e| e.path()).collect();
+        let mut names: Vec<_> = std::fs::read_dir(format!("{}/db", crate::runner::repo_root())).expect("db dir").filter_map(|e| e.ok()).map(|e| e.path()).collect();
         names.sort();
         for p in names {
             let fname = p.file_name().unwrap().to_string_lossy().to_string();
